@@ -121,9 +121,26 @@ func genParams(ctx *core.Ctx) ([]GenLine, error) {
 // replayParams executes the table on the real code.  It returns the records
 // to be judged (every accepted struct, every line the table disagrees with)
 // and one data case per accepted encodable struct.
-func replayParams(ctx *core.Ctx, lines []GenLine) (recs []InfoRec, suspect []bool, cases []*PipeCase, drift []string) {
+func replayParams(ctx *core.Ctx, lines []GenLine) (recs []InfoRec, suspect []bool, cases []*PipeCase, precs []*PipeRec, drift []string) {
 	r := ctx.Rand("param-data")
 	mism := map[string]int{}
+	bigRows, skippedBig := 0, 0
+	// the data cases are executed in batches; a case whose record looks right
+	// keeps neither its data nor its output
+	var pending []*PipeCase
+	flush := func() {
+		rs, _ := runCases(ctx, pending)
+		for i, c := range pending {
+			if rs[i].OK || rs[i].Refused {
+				c.data, c.DataHex = nil, ""
+			} else {
+				c.SetData(c.data)
+			}
+			cases = append(cases, c)
+			precs = append(precs, rs[i])
+		}
+		pending = nil
+	}
 	for _, l := range lines {
 		rec := ObserveInfo(l.P, l.V)
 		ctx.Ev.Eval(1)
@@ -157,9 +174,16 @@ func replayParams(ctx *core.Ctx, lines []GenLine) (recs []InfoRec, suspect []boo
 				if !(p.K < 0 && !p.Align && !p.Ieob) {
 					continue // CCITT data go through the corpus in ccitt.go
 				}
-				if p.Rows > 0 {
-					nrows = p.Rows
+				if p.Rows > 0 && nrows > p.Rows {
+					nrows = p.Rows // EndOfBlock is true here: fewer rows than /Rows are admissible
 				}
+			}
+			if row > 1<<16 {
+				if bigRows >= 24 {
+					skippedBig++
+					continue
+				}
+				bigRows++
 			}
 			kind := DataKinds[r.Intn(len(DataKinds))]
 			d := GenFor(r, p, kind, nrows*row)
@@ -168,14 +192,22 @@ func replayParams(ctx *core.Ctx, lines []GenLine) (recs []InfoRec, suspect []boo
 				k := 1 + r.Intn(len(d)-1)
 				c.Writes = []int{k, len(d) - k}
 			}
-			c.SetData(d)
-			cases = append(cases, c)
+			if len(d) > 1<<16 {
+				c.ReadPat = []int{1 << 15}
+			}
+			c.data = d
+			pending = append(pending, c)
+			if len(pending) >= 512 {
+				flush()
+			}
 		}
 	}
+	flush()
+	ctx.Ev.Set("param_table_big_rows_skipped", skippedBig)
 	ctx.Ev.AddReplayed(len(lines))
 	ctx.Ev.Set("param_table_lines", len(lines))
 	ctx.Ev.Set("param_table_mismatches", mism)
-	return recs, suspect, cases, drift
+	return recs, suspect, cases, precs, drift
 }
 
 // ---------------------------------------------------------------------------
@@ -471,6 +503,14 @@ func runCases(ctx *core.Ctx, cases []*PipeCase) ([]*PipeRec, []*streamInfo) {
 		}
 	}
 	wg.Wait()
+	for i, r := range recs {
+		if r != nil && !r.Refused {
+			r.OK = looksOK(r, cases[i].Data())
+			if r.OK {
+				r.out, r.Encoded = nil, nil
+			}
+		}
+	}
 	return recs, infos
 }
 
@@ -664,7 +704,7 @@ func run(ctx *core.Ctx) error {
 	if err != nil {
 		return err
 	}
-	irecs, suspect, paramCases, drift := replayParams(ctx, lines)
+	irecs, suspect, paramCases, paramRecs, drift := replayParams(ctx, lines)
 	ctx.Logf("parameter table: %d lines executed, %d records to judge, %d validation disagreements", len(lines), len(irecs), len(drift))
 
 	// 3. P-A: chunking schedules
@@ -674,7 +714,6 @@ func run(ctx *core.Ctx) error {
 	}
 	cases := buildScheduleCases(ctx, sched)
 	nsched := len(cases)
-	cases = append(cases, paramCases...)
 	cases = append(cases, bulkCases(ctx)...)
 	ncorpus := len(cases)
 	// CCITTFax corpus (independent of the seed) and seeded CCITT cases
@@ -709,9 +748,13 @@ func run(ctx *core.Ctx) error {
 			cases = append(cases, c)
 		}
 	}
-	ctx.Logf("pipe cases: %d from TLC schedules, %d from the parameter table, %d bulk, %d CCITTFax", nsched, len(paramCases), ncorpus-nsched-len(paramCases), len(cases)-ncorpus)
+	ctx.Logf("pipe cases: %d from TLC schedules, %d from the parameter table (executed), %d bulk, %d CCITTFax", nsched, len(paramCases), ncorpus-nsched, len(cases)-ncorpus)
 
 	recs, infos := runCases(ctx, cases)
+	// the parameter table's data cases were executed with the table
+	cases = append(cases, paramCases...)
+	recs = append(recs, paramRecs...)
+	infos = append(infos, make([]*streamInfo, len(paramCases))...)
 	refused := 0
 	for i, r := range recs {
 		if r == nil {
@@ -744,7 +787,7 @@ func run(ctx *core.Ctx) error {
 		if r.Refused {
 			continue
 		}
-		if ctx.Thorough() || cases[i].Origin == "schedule" || !looksOK(r, cases[i].Data()) || i%4 == 0 {
+		if ctx.Thorough() || cases[i].Origin == "schedule" || !r.OK || i%4 == 0 {
 			sel = append(sel, r)
 			selIdx = append(selIdx, i)
 		} else {
@@ -761,7 +804,7 @@ func run(ctx *core.Ctx) error {
 		badPipe[selIdx[k]] = true
 	}
 	for k, i := range selIdx {
-		if !badSel[k] && !looksOK(recs[i], cases[i].Data()) {
+		if !badSel[k] && !recs[i].OK {
 			return core.Infra("harness and specification disagree: record of %s looks wrong to the harness but is accepted by Trace_FilterPipe (%s)", recs[i].Chain, recs[i].Note)
 		}
 	}
